@@ -1682,9 +1682,12 @@ SPECS = [
          truthy_objs=("self.timeout_handle",), rename={"self.transport": "(!s.lost)", "WRITE_CHUNK_SIZE": "Srv.Flow.writeChunk"},
          types={"self._unsent": "list", "self._write_paused": "bool", "self._response_sent": "bool", "self.transport": "bool", "self.timeout_handle": "optobj",
                 "WRITE_CHUNK_SIZE": "num"},
-         opaque={"_encode_response(response.status, response.meta, response.body)": "(Srv.render r)"},
-         tuple_types={"_encode_response(response.status, response.meta, response.body)": ("str", "str")},
-         skip_src=("duration_ms = 0.0", "if self.request_start_time:"),
+         # the response object's attributes are read into locals first (getattr with a default: an object without them is rendered as the
+         # model renders an invalid status); the model's `r` stands for that triple
+         opaque={"_encode_response(response.status, response.meta, response.body)": "(Srv.render r)", "_encode_response(status, meta, payload)": "(Srv.render r)"},
+         tuple_types={"_encode_response(response.status, response.meta, response.body)": ("str", "str"), "_encode_response(status, meta, payload)": ("str", "str")},
+         skip_src=("duration_ms = 0.0", "if self.request_start_time:", "status = getattr(response, 'status', None)", "meta = getattr(response, 'meta', None)",
+                   "payload = getattr(response, 'body', None)", "url = getattr(response, 'url', None)"),
          assign_map={"self._unsent": ("Srv.Flow.pySetUnsent", True)}, chunks_fn="Srv.Flow.chunk",
          pytypes={"bytes": ("str", "List Nat"), "list[bytes]": ("list", "List (List Nat)")},
          world_ops={"self.timeout_handle.cancel": dict(fn="Srv.Flow.pyCancel", ret=None), "self._pump_response": dict(fn="(fun s => (pumpResponse s).1)", ret=None)}),
